@@ -18,7 +18,7 @@ from vmon.props import c11
 
 LEVEL = "exploration"
 SHARDS = {"quick": 16, "thorough": 16}
-MUST = ["write.twice", "directed.documents", "write.via_write_xml", "cycle.g2g3_files", "write.after_parsing_packets", "write.after_other_writes", "history.variant_headers", "cycle.g2g3", "namespace.checked", "crossprocess.documents", "immutability.snapshots", "route.xml", "route.objects",
+MUST = ["write.twice", "write.after_namespace_change", "directed.documents", "write.via_write_xml", "cycle.g2g3_files", "write.after_parsing_packets", "write.after_other_writes", "history.variant_headers", "cycle.g2g3", "namespace.checked", "crossprocess.documents", "immutability.snapshots", "route.xml", "route.objects",
         "style.prefix", "style.default", "style.none"]
 RULE = ("case = generated definition (both build routes; namespace conventions prefix xtce / custom prefix / default "
         "namespace / none) with a fixed header date: written twice in-process, again after it decoded packets, and again after other definitions (with / without a SpaceSystem name, other header "
@@ -133,6 +133,32 @@ def run(ctx):
                     ctx.violation(f"{route}/nondeterministic/after-parsing", f"writing the definition again after it decoded {used} packets gives different bytes"
                                   + (f" ({w3.exc!r})" if w3.exc is not None else ""),
                                   dict(wit, first_diff=first_diff(G1, w3.value) if w3.exc is None else None))
+            # a definition may be moved to another XTCE namespace between writes (set .ns / .xtce_schema_uri / .xtce_ns_prefix):
+            # every element of the next document lies in the NEW namespace, and moving back reproduces the first document
+            if route == "objects" and style[0] != "none" and i % 3 == 0:
+                old_ns, old_uri, old_pfx = D.ns, D.xtce_schema_uri, getattr(D, "xtce_ns_prefix", None)
+                new_uri = "http://www.omg.org/space/xtce"
+                try:
+                    D.ns = {"q": new_uri}
+                    D.xtce_schema_uri = new_uri
+                    if hasattr(D, "xtce_ns_prefix"):
+                        D.xtce_ns_prefix = "q"
+                    wn = monitored(definition_to_bytes, D)
+                finally:
+                    D.ns, D.xtce_schema_uri = old_ns, old_uri
+                    if hasattr(D, "xtce_ns_prefix"):
+                        D.xtce_ns_prefix = old_pfx
+                wb = monitored(definition_to_bytes, D)
+                ctx.count("write.after_namespace_change")
+                if wn.exc is None:
+                    try:
+                        nss2 = reader.element_namespaces(wn.value)
+                        if nss2 != {new_uri}:
+                            ctx.violation(f"{route}/namespace/after-namespace-change", f"after moving the definition to {new_uri!r} the written elements lie in {nss2}", wit)
+                    except Exception as ex:  # noqa: BLE001
+                        ctx.violation(f"{route}/not-well-formed/after-namespace-change/{type(ex).__name__}", repr(ex), wit)
+                if wb.exc is not None or wb.value != G1:
+                    ctx.violation(f"{route}/nondeterministic/after-namespace-round-trip", "moving the definition to another namespace and back changes what it writes", wit)
             # the same through the file-writing entry point: write_xml(path) twice -> identical files; file cycle G2 == G3
             if i % 5 == 0:
                 via_files(ctx, D, prefix, route, wit)
